@@ -145,3 +145,76 @@ fn probe_dap_seq_under_lock() {
     std::mem::forget(r1);
     std::mem::forget(s);
 }
+
+// ---------------- C12-b: lifecycle latch ----------------
+static mut EV: [u8; 8] = [0; 8]; // 1 = exited, 2 = terminated, 3 = output, 4 = stopped, 9 = other
+static mut EV_N: usize = 0;
+
+fn ev_code(name: &str) -> u8 {
+    if name == "exited" { 1 } else if name == "terminated" { 2 } else if name == "output" { 3 } else if name == "stopped" { 4 } else { 9 }
+}
+
+fn stub_send_event_named(
+    _seq: i64,
+    _io: &mut dyn DapTransport,
+    name: &'static str,
+    _body: Option<Value>,
+) -> anyhow::Result<()> {
+    unsafe {
+        if EV_N < 8 {
+            EV[EV_N] = ev_code(name);
+        }
+        EV_N += 1;
+    }
+    Ok(())
+}
+
+fn any_event() -> InternalEvent {
+    let k: u8 = kani::any();
+    kani::assume(k < 4);
+    match k {
+        0 => InternalEvent::Exited { code: kani::any() },
+        1 => InternalEvent::Terminated,
+        2 => InternalEvent::Output { category: "stdout", output: String::new() },
+        _ => InternalEvent::Continued { thread_id: None, all_threads_continued: true },
+    }
+}
+
+#[kani::proof]
+#[kani::stub(std::backtrace::Backtrace::capture, no_backtrace)]
+#[kani::stub(std::hash::RandomState::new, fixed_random_state)]
+#[kani::stub(crate::dap::yadap::protocol::send_event, stub_send_event_named)]
+#[kani::unwind(10)]
+fn probe_dap_latch() {
+    let io: Arc<Mutex<dyn DapTransport>> = Arc::new(Mutex::new(Rec2));
+    let mut s = DebugSession::new(io);
+    s.events.push(any_event());
+    s.events.push(any_event());
+    let r1 = s.drain_events();
+    s.events.push(any_event());
+    let r2 = s.drain_events();
+    assert!(r1.is_ok() && r2.is_ok());
+    let n = unsafe { EV_N };
+    let ev = unsafe { EV };
+    // nothing after `terminated`; at most one `terminated`, at most one `exited`, exited before terminated
+    let mut seen_term = false;
+    let mut seen_exit = false;
+    let mut i = 0;
+    while i < 8 {
+        if i < n {
+            assert!(!seen_term, "BSV: nothing is sent after terminated");
+            if ev[i] == 1 {
+                assert!(!seen_exit, "BSV: exited at most once");
+                seen_exit = true;
+            }
+            if ev[i] == 2 {
+                seen_term = true;
+            }
+        }
+        i += 1;
+    }
+    kani::cover!(seen_term && seen_exit);
+    kani::cover!(n == 0);
+    std::mem::forget((r1, r2));
+    std::mem::forget(s);
+}
